@@ -70,6 +70,7 @@ class Harness:
         self.fns = []
         self.obligations = []
         self.known = []
+        self.ignore = []
         self.line = 0
 
     def as_dict(self):
@@ -117,6 +118,7 @@ def parse_module(path):
             pending.flags = [f for f in kv.get("flags", "").split(",") if f]
             pending.mem = int(kv.get("mem", "16"))
             pending.known = [f for f in kv.get("known", "").split(",") if f]
+            pending.ignore = [f for f in kv.get("ignore_checks", "").split(",") if f]
             cur = pending
         elif s.startswith("//@-unregistered"):
             cur = None
